@@ -1381,6 +1381,24 @@ def scenario_script(i, x, ent, rej=(), attrs=None, flags=None, malformed=(), res
         # econf_requirePermissions with masks that every file and directory of the scenario satisfies: no effect of its own, but
         # the other restrictions must keep working next to it
         fl.append("requireperms 444 555")
+    # The settings are independent of each other and each keeps its LAST value: the calls come in a varying order, and calls that
+    # are overwritten again (another owner / group first, links forbidden and allowed again, links allowed explicitly although
+    # they are by default) are mixed in - the state in force at the read is the same.
+    r_ = random.Random(i * 7919 + len(fl))
+    if i % 3:
+        noise = []
+        if flags.get("owner") and r_.random() < 0.5:
+            noise.append("requireowner %d" % FOREIGN)
+        if flags.get("group") and r_.random() < 0.5:
+            noise.append("requiregroup %d" % FOREIGN)
+        if flags.get("nosym") and r_.random() < 0.5:
+            noise.append("followsymlinks 1")
+        r_.shuffle(fl)
+        fl = noise + fl
+        if not flags.get("nosym"):
+            # allowing links (again) says nothing about owners, groups or permission bits
+            pos = r_.randint(0, len(fl))
+            fl[pos:pos] = ["followsymlinks 0", "followsymlinks 1"] if r_.random() < 0.5 else ["followsymlinks 1"]
 
     def one_read(h):
         c = ["cbreset", "cbrejectk %d" % mask] + shape.call(h, R, cb=use_cb)
